@@ -10,6 +10,8 @@ def run(res):
   mmdesign.run_design_level(res, OWNER)
   insts, verdicts, stats = mm.run_search_clauses(res, OWNER)
   mm.vacuity_guard(res, OWNER, stats)
+  # panels of 7-14 geos (greedy only): the clauses about returned designs, judged by MMTraceLite.tla
+  mm.run_large_greedy(res, OWNER)
   mm.describe(res, OWNER)
 
 
